@@ -7,6 +7,11 @@
 mod codec;
 mod gen;
 mod c07;
+mod cmp;
+mod c01;
+
+/// lexpr is built with its default feature `fast-float-parsing` in this crate
+pub const FAST_FLOAT: bool = true;
 
 use serde_json::Value as J;
 use std::io::Write;
@@ -23,6 +28,8 @@ fn main() {
     let mut out = match args[1].as_str() {
         "c07" => c07::run(&cfg),
         "c07-replay" => c07::replay_case(&cfg),
+        "c01" => c01::run(&cfg),
+        "c01-replay" => c01::replay_case(&cfg),
         x => {
             eprintln!("unknown command {}", x);
             std::process::exit(2);
